@@ -116,7 +116,7 @@ def g_tree(draw, max_nodes=40, max_depth=2, soll_bias=False, min_freetext=0, exp
         budget[0] -= 1
         if draw(st.sampled_from(range(5))) < 3:
             return {"t": "ft", "d": name("D", parent), "expr": draw(expression()),
-                    "inp": draw(st.sampled_from([None, "", "x", "yy", "2022-01-01T00:00:00+01:00"]))}  # fmt: skip
+                    "inp": draw(st.sampled_from([None, "", "x", "yy", "0", "2022-01-01T00:00:00+01:00"]))}  # fmt: skip
         qualifiers = draw(st.lists(st.sampled_from(QUALIFIERS), min_size=1, max_size=5, unique=True))
         pool = [with_meaning(draw, {"q": q, "expr": draw(expression())}) for q in qualifiers]
         return {"t": "vp", "d": name("V", parent), "pool": pool,
@@ -227,14 +227,74 @@ def build_element(element):
 
     if element["t"] == "ft":
         return DataElementFreeText(
-            discriminator=element["d"], ahb_expression=element["expr"]["s"], entered_input=element["inp"], data_element_id="1234"
+            discriminator=disc(element), ahb_expression=element["expr"]["s"], entered_input=element["inp"], data_element_id="1234"
         )
     return DataElementValuePool(
-        discriminator=element["d"],
+        discriminator=disc(element),
         data_element_id="0001",
         entered_input=element["inp"],
         value_pool=[ValuePoolEntry(qualifier=e["q"], meaning=meaning(e), ahb_expression=e["expr"]["s"]) for e in element["pool"]],
     )
+
+
+def anonymise(draw, tree):
+    """gives some data elements no discriminator (None) or one shared discriminator; in place"""
+    for kind, node, _ in nodes(tree):
+        if kind in ("ft", "vp"):
+            choice = draw(st.sampled_from(range(6)))
+            if choice == 0:
+                node["disc"] = None
+            elif choice == 1:
+                node["disc"] = "same"
+    return tree
+
+
+def disc(element):
+    """
+    The discriminator a data element is built with: its unique path "d" unless the case overrides it with "disc" -
+    maus allows None ("the data element was not found in the MIG") and does not demand uniqueness.
+    """
+    return element["disc"] if "disc" in element else element["d"]
+
+
+class Misaligned(Exception):
+    """the result list of a validation does not follow the document order of the tree"""
+
+
+def align(tree, results):
+    """
+    {path "d" of a node: its row} for the result list of validate_deep_anwendungshandbuch, matched *by position*:
+    a group, then its sub-groups, then its segments each followed by all of its data elements; nothing below a
+    forbidden group or segment.  Works with data elements whose discriminators are None or not unique.
+    """
+    rows, position = {}, [0]
+
+    def take(expected, path):
+        index = position[0]
+        if index >= len(results):
+            raise Misaligned(f"the result list ends after {index} rows, before {path}")
+        if results[index].discriminator != expected:
+            raise Misaligned(f"row {index} has discriminator {results[index].discriminator!r}, expected {expected!r} (node {path})")
+        rows[path] = results[index]
+        position[0] += 1
+        return str(results[index].validation_result.requirement_validation)
+
+    def walk(group):
+        if take(group["d"], group["d"]) == "IS_FORBIDDEN":
+            return
+        for sub in group["groups"]:
+            walk(sub)
+        for seg in group["segs"]:
+            if take(seg["d"], seg["d"]) == "IS_FORBIDDEN":
+                continue
+            for element in seg["des"]:
+                take(disc(element), element["d"])
+
+    for root in tree["groups"]:
+        walk(root)
+    if position[0] != len(results):
+        raise Misaligned(f"{len(results) - position[0]} surplus rows after the last node, starting with {results[position[0]].discriminator!r}")
+    return rows
 
 
 def result_rows(results):
@@ -334,9 +394,9 @@ def model(tree, assignment, soll_is_required, roots=None, parent=None):
                 own = status_of(element["expr"], status)
                 if not element["expr"].get("fault"):
                     own += "_AND_FILLED" if element["inp"] else "_AND_EMPTY"
-                out.append((element["d"], own))
+                out.append((disc(element), own))
             else:
-                out.append((element["d"], pool_status(element, assignment)))
+                out.append((disc(element), None))  # value pools: judged by C17, here they only have to appear
 
     for root in roots if roots is not None else tree["groups"]:
         if parent == "IS_FORBIDDEN":
